@@ -146,7 +146,8 @@ def create_read_grouper(args, sample, chr_id):
             return AlignmentTagReadGrouper(tag="RG")
         return AlignmentTagReadGrouper(tag=values[1])
     elif values[0] == 'read_id':
-        return ReadIdSplitReadGrouper(delim=values[1])
+        # the delimiter is everything after "read_id:", so it may be or contain a colon
+        return ReadIdSplitReadGrouper(delim=option[len('read_id:'):])
     elif values[0] == 'file':
         read_group_chr_filename = sample.read_group_file + "_" + chr_id
         return ReadTableGrouper(read_group_chr_filename, 0, 1, '\t', internal=True)
